@@ -6,4 +6,7 @@ CONSTANTS
   SharedCache = FALSE
   ReuseInterp = FALSE
   Rich = FALSE
+  SharedShellArgs = FALSE
+  Fam = "shared"
+  NG = 4
 CHECK_DEADLOCK FALSE
